@@ -153,14 +153,27 @@ def interpret(envelope: bytes):
 
 # -- root template -----------------------------------------------------------------------------------
 
+# version settings: name -> (EXTRAVERSION line or None, override kind, expected sequence number, expected version list)
+FSEQ = (2 << 24) + (1 << 16) + (3 << 8) + 4
+VERS = {
+    "version-file": ("rc.2", None, FSEQ, [2, 1, 3, -1, 2]),
+    "explicit": ("rc.2", "both", 1234, [7, 8, 9, -2, 1]),
+    "version-file-bare-tag": ("rc", None, FSEQ, [2, 1, 3, -1]),
+    "version-file-release": (None, None, FSEQ, [2, 1, 3]),
+    "version-file-tag-dot": ("beta.", None, FSEQ, "any"),       # accepted text is up to the glue; rendering and creating must succeed
+    "version-override-only": ("alpha1", "version", FSEQ, [7, 8, 9, -2, 1]),
+}
+VER_NAMES = ["none"] + list(VERS)
+
+
 def root_cases(tier):
     out = []
     subsets = [s for r in (1, 2, 3) for s in itertools.combinations(IMAGES, r)]
     for imgs in subsets:
         for names in itertools.product((False, True), repeat=3):
-            for ver in ("none", "version-file", "explicit"):
+            for ver in VER_NAMES:
                 if tier == "quick":
-                    vsets = [[v] * len(imgs) for v in VARIANTS]
+                    vsets = [[v] * len(imgs) for v in (VARIANTS if ver in ("none", "version-file", "explicit") else VARIANTS[:1])]
                 else:
                     vsets = [list(v) for v in itertools.product(VARIANTS, repeat=len(imgs))]
                 for vs in vsets:
@@ -170,7 +183,7 @@ def root_cases(tier):
 
 def top_cases(tier):
     out = []
-    for ver in ("none", "version-file", "explicit"):
+    for ver in VER_NAMES:
         vsets = [[v, v] for v in VARIANTS] if tier == "quick" else [list(v) for v in itertools.product(VARIANTS, repeat=2)]
         for vs in vsets:
             out.append({"tpl": "top", "imgs": ["secdom", "sysctrl"], "custom": [False, False, False], "ver": ver, "variants": vs})
@@ -213,6 +226,9 @@ def run_template(case, agg):
             for k, c in zip(("root", "app", "rad"), case["custom"]):
                 if c:
                     fh.write(f'SB_CONFIG_SUIT_MPI_{KCFG[k]}_VENDOR_NAME="{names[k][0]}"\nSB_CONFIG_SUIT_MPI_{KCFG[k]}_CLASS_NAME="{names[k][1]}"\n')
+                # what a .config also contains: the previous / unset values as comments (below the active line, or alone)
+                fh.write(f'# SB_CONFIG_SUIT_MPI_{KCFG[k]}_VENDOR_NAME="commented-out.example"\n#SB_CONFIG_SUIT_MPI_{KCFG[k]}_CLASS_NAME="commented_out"\n'
+                         f'# SB_CONFIG_SUIT_MPI_{KCFG[k]}_SOMETHING is not set\n')
         cores = [f"sysbuild,,,{sb}"]
         children = {}
         for img, var in zip(case["imgs"], case["variants"]):
@@ -230,13 +246,17 @@ def run_template(case, agg):
             want_seq, want_ver = 1, None
             if case["ver"] != "none":
                 vf = os.path.join(d, "VERSION")
+                extra_line, override, want_seq, want_ver = VERS[case["ver"]]
                 with open(vf, "w") as fh:
-                    fh.write("VERSION_MAJOR = 2\nVERSION_MINOR = 1\nPATCHLEVEL = 3\nVERSION_TWEAK = 4\nEXTRAVERSION = rc.2\n")
-                    if case["ver"] == "explicit":
-                        pre = "APP_ROOT" if case["tpl"] == "root" else "NORDIC_TOP"
-                        fh.write(f"{pre}_VERSION = 7.8.9-beta.1\n{pre}_SEQ_NUM = 1234\n")
+                    fh.write("VERSION_MAJOR = 2\nVERSION_MINOR = 1\nPATCHLEVEL = 3\nVERSION_TWEAK = 4\n")
+                    if extra_line is not None:
+                        fh.write(f"EXTRAVERSION = {extra_line}\n")
+                    pre = "APP_ROOT" if case["tpl"] == "root" else "NORDIC_TOP"
+                    if override in ("both", "version"):
+                        fh.write(f"{pre}_VERSION = 7.8.9-beta.1\n")
+                    if override == "both":
+                        fh.write(f"{pre}_SEQ_NUM = 1234\n")
                 ctx.update(build.read_version_file(vf))
-                want_seq, want_ver = ((2 << 24) + (1 << 16) + (3 << 8) + 4, [2, 1, 3, -1, 2]) if case["ver"] == "version-file" else (1234, [7, 8, 9, -2, 1])
             ctx["output_envelope"] = os.path.join(d, "out.suit")
             ctx["artifacts_folder"] = art
             tpl = repo("ncs", "root_with_nordic_top_envelope.yaml.jinja2" if case["tpl"] == "root" else "nordic_top_envelope.yaml.jinja2")
@@ -293,7 +313,7 @@ def run_template(case, agg):
     if facts["seq"] != want_seq:
         problems.append(("sequence-number", f"sequence number {facts['seq']} != {want_seq}"))
     gotv = refcbor.to_py(refcbor.decode(facts["version"].value)) if facts["version"] is not None else None
-    if gotv != want_ver:
+    if want_ver != "any" and gotv != want_ver:
         problems.append(("current-version", f"current version {gotv} != {want_ver}"))
     if problems:
         agg.viol(f"C19:{case['tpl']}/{problems[0][0]}", f"{label}: " + "; ".join(p[1] for p in problems[:3]))
